@@ -926,10 +926,12 @@ class PG(G):
             lv = ("field", r.choice(["x", "y", "a", "b", "i"]))
         elif x < 0.85:
             lv = ("fieldx", r.choice([("bin", ".", ("field", "a"), ("str", "_k")), ("str", "n1"), ("posname", ("int", r.randint(1, 3)))]))
-        elif x < 0.93:
+        elif x < 0.95:
             lv = ("posval", ("int", r.randint(1, 7)))
-        else:
+        elif x < 0.97:
             return [("assign", ("posname", ("int", r.randint(1, 7))), ("str", r.choice(["renamed", "R2", "new name"])))]
+        else:
+            lv = ("field", "n3")
         ty = r.choice(["int", "int", "str", "bool", "map", "arr", "int"])
         return [("assign", lv, self.expr(ty, r.choice([1, 2, 3])))]
 
@@ -1096,7 +1098,10 @@ class PG(G):
         maps_ok = [n for n in ("cm0", "cm1", "cm2", "cr") if ("@" + n) in self.assigned]
         scal_ok = [n for n in ("ci0", "ci1", "cs0") if ("@" + n) in self.assigned]
         if x < 0.2 or (not maps_ok and not scal_ok and x < 0.6):
-            return [("emit1", self.map_expr(1))]
+            e = self.map_expr(1)
+            if e[0] in ("local", "oos") and r.random() < 0.7:
+                e = ("bcall", "mapsum", [e])
+            return [("emit1", e)]
         if x < 0.32 and scal_ok:
             names = r.sample(scal_ok, r.randint(1, len(scal_ok)))
             if r.random() < 0.2:
@@ -1190,7 +1195,7 @@ class PG(G):
         if x < 0.975 and self.loop_depth > 0:
             c = self.bool_expr(1)
             return [("if", [(c, [(r.choice(["break", "continue"]),)])], None)]
-        if x < 0.985 and rec and self.verb == "put" and not self.in_func:
+        if x < 0.985 and rec and self.verb == "put" and not self.in_func and (self.nest == 0 or r.random() < 0.3):
             return [("filter", self.bool_expr(2))]
         if self.in_func and r.random() < 0.5:
             return [("if", [(self.bool_expr(1), [("return", self.expr(self.ret_type, 1) if self.ret_type else None)])], None)]
@@ -1270,7 +1275,7 @@ class PG(G):
             body = [("print", [("bin", ".", ("local", "s0"), ("str", ":")), ("local", "i0")])] if r.random() < 0.6 else []
             body += [("opassign", "+", ("oos", "ci1"), ("local", "i0"))] if r.random() < 0.6 else []
             body += self.block(0, 2)
-            if r.random() < 0.3:
+            if r.random() < 0.12:
                 body.insert(1, ("if", [(("bin", ">", ("local", "i0"), ("int", r.randint(0, 50))), [("return", None)])], None))
             return ("subr", name, [(r.choice(["str", None]), "s0"), (r.choice(["int", None]), "i0")], body), ["str", "int"]
         finally:
